@@ -578,3 +578,26 @@ func (x *Session) WaitOneOrEnd() (resps []*spb.ModifyResponse, ended bool, hang 
 	defer x.mu.Unlock()
 	return append(x.take(), x.late...), true, nil
 }
+
+// ParkedOnLock returns the innermost gribigo frame of a goroutine of this session's handler
+// that is waiting for a mutex ("" if none): the message the session sent cannot be processed
+// before somebody else releases that lock.
+func (x *Session) ParkedOnLock() string {
+	gid := x.handlerGID.Load()
+	for _, g := range Descendants(Parse(Dump()), gid) {
+		switch g.State {
+		case "sync.Mutex.Lock", "sync.RWMutex.Lock", "sync.RWMutex.RLock":
+			if f := g.FirstGribigo(); f != "" {
+				return f + "[" + g.State + "]"
+			}
+		}
+	}
+	return ""
+}
+
+// NewResponses reports how many responses have not been consumed yet.
+func (x *Session) NewResponses() int {
+	x.mu.Lock()
+	defer x.mu.Unlock()
+	return len(x.out) - x.read
+}
